@@ -972,6 +972,15 @@ func (w *world) checkSafety(ctx string, before, after map[verifsim.Key]verifsim.
 						w.fail("VIOLATION %s: existing %s of TLS secret %s was overwritten (non-empty keys before %v, keys after %v)", ctx, dk, k.Name, nonEmptyKeys(bd), keysOf(ad))
 					}
 				}
+				// ... and nothing is issued into a secret that already holds material
+				// (e.g. only ca.crt): it is kept as it is, not regenerated.
+				if len(bd["tls.crt"]) > 0 || len(bd["tls.key"]) > 0 || len(bd["ca.crt"]) > 0 {
+					for _, dk := range certKeys {
+						if len(bd[dk]) == 0 && len(ad[dk]) > 0 {
+							w.fail("VIOLATION %s: TLS secret %s already held %v but a new %s was issued into it (kept, never regenerated)", ctx, k.Name, nonEmptyKeys(bd), dk)
+						}
+					}
+				}
 				if len(bd["tls.crt"]) > 0 && len(bd["tls.key"]) > 0 && !sameData(bd, ad) {
 					w.fail("VIOLATION %s: the existing certificate in secret %s was changed (keys before %v, after %v; tls.crt equal=%v)", ctx, k.Name, keysOf(bd), keysOf(ad), bytes.Equal(bd["tls.crt"], ad["tls.crt"]))
 				}
